@@ -211,6 +211,29 @@ func adapterStress(rounds int) string {
 		}(g)
 	}
 	wg.Wait()
+	// overlapping attempts of ONE execution (a hedge fires while the first attempt is still uploading): each attempt gets the
+	// complete body of a non-seekable upload
+	payload := strings.Repeat("0123456789", 400)
+	slow := roundTripperFunc(func(r *http.Request) (*http.Response, error) {
+		half := make([]byte, len(payload)/2)
+		n, _ := io.ReadFull(r.Body, half)
+		time.Sleep(3 * time.Millisecond) // the hedge starts meanwhile
+		rest, _ := io.ReadAll(r.Body)
+		if got := string(half[:n]) + string(rest); got != payload {
+			bad.Store(fmt.Sprintf("hedged HTTP attempts: an attempt uploaded %d of %d bytes", len(got), len(payload)))
+		}
+		return &http.Response{StatusCode: 200, Header: http.Header{}, Body: io.NopCloser(strings.NewReader("ok")), Request: r}, nil
+	})
+	hrt := failsafehttp.NewRoundTripper(slow, hedgepolicy.BuilderWithDelay[*http.Response](time.Millisecond).WithMaxHedges(2).Build())
+	for k := 0; k < rounds; k++ {
+		req, _ := http.NewRequest("POST", "http://echo/upload", struct{ io.Reader }{strings.NewReader(payload)})
+		if resp, err := hrt.RoundTrip(req); err != nil {
+			bad.Store(fmt.Sprintf("hedged HTTP attempts: %v", err))
+		} else {
+			resp.Body.Close()
+		}
+	}
+	time.Sleep(20 * time.Millisecond)
 	if v := bad.Load(); v != nil {
 		return v.(string)
 	}
